@@ -72,6 +72,27 @@ def sched_late(T):
     return out
 
 
+def sched_status(T):
+    """Lying status reports: inflated (and later lowered: the maximum must come down again), inflated and
+    silent, stale, base above the node's height."""
+    out = []
+    hon = [{"a": "Join", "p": "h1"}, {"a": "Status", "p": "h1", "base": 1, "height": T}]
+    for k in (1, 2, 3):
+        out.append({"id": "st-lowered-%d" % k, "src": "status", "T": T, "peers": P2, "steps":
+                    [{"a": "Join", "p": "l1"}, {"a": "Status", "p": "l1", "base": 1, "height": T + k},
+                     {"a": "Status", "p": "l1", "base": 1, "height": T}] + hon})
+        out.append({"id": "st-lowered-late-%d" % k, "src": "status", "T": T, "peers": P2, "steps":
+                    hon + [{"a": "Join", "p": "l1"}, {"a": "Status", "p": "l1", "base": 1, "height": T + k},
+                           {"a": "Status", "p": "l1", "base": 1, "height": max(1, T - k)}]})
+        out.append({"id": "st-inflated-%d" % k, "src": "status", "T": T, "peers": P2, "steps":
+                    [{"a": "Join", "p": "l1"}, {"a": "Status", "p": "l1", "base": 1, "height": T + k}] + hon})
+        out.append({"id": "st-stale-%d" % k, "src": "status", "T": T, "peers": P2, "steps":
+                    [{"a": "Join", "p": "l1"}, {"a": "Status", "p": "l1", "base": 1, "height": max(0, T - k)}] + hon})
+        out.append({"id": "st-base-%d" % k, "src": "status", "T": T, "peers": P2, "steps":
+                    [{"a": "Join", "p": "l1"}, {"a": "Status", "p": "l1", "base": 1 + k, "height": T}] + hon})
+    return out
+
+
 def sched_pairs(T, rng, n):
     """Both blocks of a pair from two different liars (first of kind a at h, second of kind b at h+1)."""
     out = []
@@ -170,7 +191,7 @@ def run_harness(ctx, binp, label, vals, scheds, par):
 
 
 def collect(ctx, verdict, label, vals, scheds, rows, stats):
-    v = core.validate_traces(ctx, "TMFastSyncTrace", rows, label=label, max_events=2500, timeout=1200)
+    v = core.validate_traces(ctx, "TMFastSyncTrace", rows, label=label, max_events=1000, timeout=1200)
     by_run = {}
     for r in rows:
         by_run.setdefault(r["run"], []).append(r)
@@ -246,22 +267,43 @@ def run(ctx):
         cfg = "C13_weak_%s.cfg" % w
         return "weaklive:" + w, ctx.tlc("C13_mc", cfg, workers=tw, timeout=1800, heap="5g", label=cfg[:-4])
 
-    jobs = [(tlc_exh, c) for c in exh] + [(tlc_weak, w) for w in WEAK]
-    if not quick and not fast:
-        jobs.append((tlc_live, None))
-        jobs += [(tlc_weak_live, w) for w in WEAK_LIVE]
-    with ThreadPoolExecutor(max_workers=3 if quick else 2) as ex:
-        for k, r in ex.map(lambda j: j[0](j[1]), jobs):
+    # the weakened specs first (their counterexamples become schedules); the exhaustive configs
+    # run in the background while the schedules are executed on the real code
+    with ThreadPoolExecutor(max_workers=3) as ex:
+        for k, r in ex.map(tlc_weak, list(WEAK)):
             results[k] = r
-    states = transitions = 0
-    for c in exh + (["live"] if not quick and not fast else []):
-        r = results[c]
-        if not r.ok:
-            ctx.save_log(c, r.out)
-            raise Undecided("TLC run %s did not pass cleanly: %s" % (
-                c, (r.errors or [v["name"] for v in r.violations] or ["timeout"])[:3]))
-        states += r.distinct
-        transitions += r.generated
+    bg = ThreadPoolExecutor(max_workers=2)
+    bg_jobs = [bg.submit(tlc_exh, c) for c in exh]
+    if not quick and not fast:
+        bg_jobs.append(bg.submit(tlc_live, None))
+        bg_jobs += [bg.submit(tlc_weak_live, w) for w in WEAK_LIVE]
+
+    def finish_design():
+        states = transitions = 0
+        for fu in bg_jobs:
+            k, r = fu.result()
+            results[k] = r
+        bg.shutdown()
+        for c in exh + (["live"] if not quick and not fast else []):
+            r = results[c]
+            if not r.ok:
+                ctx.save_log(c, r.out)
+                raise Undecided("TLC run %s did not pass cleanly: %s" % (
+                    c, (r.errors or [v["name"] for v in r.violations] or ["timeout"])[:3]))
+            states += r.distinct
+            transitions += r.generated
+        if not quick and not fast:
+            for w, name in WEAK_LIVE.items():
+                r = results["weaklive:" + w]
+                # (this TLC prints "Temporal property ReachesTip was violated", which the runner's parser
+                # files under errors; look at the text)
+                if r.timed_out or not (any(v["name"] == name for v in r.violations)
+                                       or re.search(r"Temporal propert(y ReachesTip was|ies were) violated", r.out)):
+                    ctx.save_log("weaklive_" + w, r.out)
+                    raise Undecided("vacuity: LiveSpec with Weak_%s does not violate ReachesTip" % w)
+                nonvac["Weak_%s refuted by TLC (ReachesTip, temporal)" % w] = True
+        return states, transitions
+
     nonvac = {}
     attack = []
     peers_small, t_small = peers_of_cfg(ctx, "C13_small.cfg")
@@ -277,16 +319,8 @@ def run(ctx):
             attack.append({"id": "attack-%s-%d" % (w, k), "src": "weak", "T": t_small, "peers": peers_small,
                            "steps": steps_of_acts(acts)})
 
-    if not quick and not fast:
-        for w, name in WEAK_LIVE.items():
-            r = results["weaklive:" + w]
-            if r.timed_out or not any(v["name"] == name for v in r.violations):
-                ctx.save_log("weaklive_" + w, r.out)
-                raise Undecided("vacuity: LiveSpec with Weak_%s does not violate ReachesTip" % w)
-            nonvac["Weak_%s refuted by TLC (ReachesTip, temporal)" % w] = True
-
     # ---- 2. behaviours of the design spec as schedules (simulation) ------------------------
-    nsim = 40 if quick else 400
+    nsim = 40 if quick else 300
     prefix = "c13sim"
     rs = ctx.tlc("C13_mc", "C13_sim.cfg", simulate="file=%s,num=%d" % (prefix, nsim), depth=70, seed=seed, workers=1,
                  timeout=900, label="C13_sim")
@@ -310,14 +344,14 @@ def run(ctx):
     # ---- 3. run on the real code -----------------------------------------------------------
     batches = []
     if quick:
-        batches.append(("A", VALS_A, sched_matrix(4) + sched_late(4) + attack + sims + sched_pairs(4, rng, 16)
+        batches.append(("A", VALS_A, sched_matrix(4) + sched_late(4) + sched_status(4) + attack + sims + sched_pairs(4, rng, 16)
                         + sched_random(seed, 30)))
         batches.append(("C", VALS_C, sched_matrix(3)[::2] + sched_late(3) + sched_random(seed + 1, 16)))
     else:
-        batches.append(("A", VALS_A, sched_matrix(4) + sched_matrix(5) + sched_late(4) + sched_late(5) + attack + sims
-                        + sched_pairs(4, rng, 200) + sched_random(seed, 500)))
-        batches.append(("C", VALS_C, sched_matrix(4) + sched_late(4) + sched_pairs(3, rng, 60) + sched_random(seed + 1, 200)))
-        batches.append(("B", VALS_B, sched_matrix(3) + sched_late(3) + sched_random(seed + 2, 100)))
+        batches.append(("A", VALS_A, sched_matrix(4) + sched_matrix(5) + sched_late(4) + sched_late(5) + sched_status(4) + sched_status(5) + attack + sims
+                        + sched_pairs(4, rng, 150) + sched_random(seed, 350)))
+        batches.append(("C", VALS_C, sched_matrix(4) + sched_late(4) + sched_pairs(3, rng, 50) + sched_random(seed + 1, 150)))
+        batches.append(("B", VALS_B, sched_matrix(3) + sched_late(3) + sched_random(seed + 2, 60)))
 
     verdict = core.Verdict(ctx)
     stats = new_stats()
@@ -332,6 +366,12 @@ def run(ctx):
         if len(samples) < 2:
             first = [r for r in rows if r["run"] == 1]
             samples.append(core.abridge([{k: v for k, v in r.items() if k != "pool"} for r in first], 14))
+    try:
+        states, transitions = finish_design()
+    except BaseException:
+        for fu in bg_jobs:
+            fu.cancel()
+        raise
     if crashes and not verdict.new:
         # the driver died and nothing observed before its death breaks the property: cannot decide
         raise Undecided(crashes[0])
